@@ -666,9 +666,9 @@ func detGaugeLookups(c *lookupCmp, x, y *detNode) {
 			}
 			continue
 		}
-		want := "A"
-		if g.StartTime.After(now) {
-			want = "U"
+		want := gaugeStatusAt(g, now)
+		if want == "F" {
+			o.Count("import.lookup.incentives.exhausted-gauge-still-active-on-exporting-node")
 		}
 		desc := fmt.Sprintf("gauge %d (perpetual %v, filled %d of %d, start %s, import block time %s): exporting node lists it under %q, imported node under %q", g.Id, g.IsPerpetual, g.FilledEpochs, g.NumEpochsPaidOver,
 			g.StartTime.UTC().Format(time.RFC3339), now.UTC().Format(time.RFC3339), mx[g.Id], my[g.Id])
@@ -749,20 +749,14 @@ func detGaugeLookups(c *lookupCmp, x, y *detNode) {
 			}
 			for id := range sy {
 				g, ok := byID[id]
-				want := "A"
-				if ok && g.StartTime.After(now) {
-					want = "U"
-				}
+				want := gaugeStatusAt(g, now)
 				if !ok || mx[id] == "F" || g.DistributeTo.Denom != dn || want != st {
 					c.note("incentives.gauges-by-denom", fmt.Sprintf("the %s-per-denomination query of the imported node for %s lists gauge %d (known %v, status on the exporting node %q, denomination %q, expected status %s)", st, dn, id, ok, mx[id], g.DistributeTo.Denom, want))
 				}
 			}
 			for id := range sx {
 				g := byID[id]
-				want := "A"
-				if g.StartTime.After(now) {
-					want = "U"
-				}
+				want := gaugeStatusAt(g, now)
 				if mx[id] == st && want == st && !sy[id] {
 					if sameTimeKeyOtherDenom(all, g) {
 						o.Count("import.lookup.incentives.per-denom-query-drops-time-key-shared-with-another-denom")
@@ -784,4 +778,16 @@ func sameTimeKeyOtherDenom(all []incentivestypes.Gauge, g incentivestypes.Gauge)
 		}
 	}
 	return false
+}
+
+// gaugeStatusAt: the reference store a gauge record belongs to at block time t (written from the definitions in the
+// property's text: upcoming before its start, then active while perpetual or not all epochs are paid, else finished)
+func gaugeStatusAt(g incentivestypes.Gauge, t time.Time) string {
+	switch {
+	case t.Before(g.StartTime):
+		return "U"
+	case g.IsPerpetual || g.FilledEpochs < g.NumEpochsPaidOver:
+		return "A"
+	}
+	return "F"
 }
